@@ -213,8 +213,10 @@ Section DetInd.
   Variable P : det T -> Prop.
   Hypothesis Hi : forall l, P (DItems l).
   Hypothesis Hs : forall l, Forall P l -> P (DSubs l).
+  Hypothesis Hx : P DMixed.
   Fixpoint det_ind' (d : det T) : P d :=
     match d with
+    | DMixed => Hx
     | DItems l => Hi l
     | DSubs l => Hs l ((fix go (l : list (det T)) : Forall P l :=
                           match l with [] => Forall_nil P | x :: r => Forall_cons x (det_ind' x) (go r) end) l)
@@ -458,7 +460,7 @@ Qed.
 (* ---------- nested detections ---------- *)
 Lemma det_plain_not_null (d : det T) y : det_plain d = Ok y -> is_null_def y = false.
 Proof.
-  destruct d as [l|l]; intros H.
+  destruct d as [l|l|]; intros H; [| |discriminate].
   - rewrite det_plain_items in H. apply obind_ok in H. destruct H as [rs0 [_ H]].
     remember (filter (fun p => negb (is_none p)) rs0) as rs eqn:E.
     destruct rs as [|x [|x2 rest]].
@@ -477,7 +479,7 @@ Qed.
 
 Lemma plain_is_single (d : det T) y : dom d = true -> det_plain d = Ok y -> is_plain y = true -> plain_single d = true.
 Proof.
-  destruct d as [l|l]; intros Hd H Hp.
+  destruct d as [l|l|]; intros Hd H Hp; [| |discriminate].
   - cbn [dom] in Hd. apply andb_true_iff in Hd. destruct Hd as [Hd _].
     rewrite det_plain_items in H. apply obind_ok in H. destruct H as [rs [Hrs H]].
     rewrite (items_filter_id _ _ Hd Hrs) in H.
@@ -529,7 +531,7 @@ Qed.
 Theorem plain_reload : forall (r : det T) d',
   inv r -> dom r = true -> det_plain r = Ok d' -> load_def d' = Ok r.
 Proof.
-  induction r as [l | l IH] using det_ind'; intros d' Hi Hd H.
+  induction r as [l | l IH |] using det_ind'; intros d' Hi Hd H; [| |discriminate].
   - cbn [dom] in Hd. apply andb_true_iff in Hd. destruct Hd as [Hd Hk].
     apply items_reload; assumption.
   - cbn [dom] in Hd. apply andb_true_iff in Hd. destruct Hd as [Hd He].
@@ -599,13 +601,6 @@ Proof.
 Qed.
 
 (* without original values (disable_conversion_to_plain) serialisation fails with SigmaValueError *)
-Fixpoint has_disabled (d : det T) : bool :=
-  match d with
-  | DItems l => existsb (fun i => match i_orig i with None => true | _ => false end) l
-  | DSubs l => existsb has_disabled l
-  end.
-Definition is_err {A} (x : outcome A) : bool := match x with Ok _ => false | _ => true end.
-
 Lemma mapM_err_exists {A B} (f : A -> outcome B) (p : A -> bool) l :
   (forall x, p x = true -> is_err (f x) = true) -> existsb p l = true -> is_err (mapM f l) = true.
 Proof.
@@ -618,7 +613,7 @@ Qed.
 
 Theorem disabled_fails : forall r : det T, has_disabled r = true -> is_err (det_plain r) = true.
 Proof.
-  induction r as [l | l IH] using det_ind'; intros H.
+  induction r as [l | l IH |] using det_ind'; intros H; [| |discriminate].
   - rewrite det_plain_items. cbn [has_disabled] in H.
     assert (E : is_err (mapM item_plain l) = true).
     { eapply mapM_err_exists; [|exact H]. intros i Hi. unfold item_plain.
@@ -636,3 +631,41 @@ Proof.
 Qed.
 
 End Main.
+
+(* ---------- the identity statement is false outside the domain (faithful model) ---------- *)
+Definition apply_any (f : option str) (ms : list mcls) (o : list sval) : outcome unit := Ok tt.
+Definition rt_differs (defs : list (str * ddef)) (c : cval) : Prop :=
+  exists r d', load_dets apply_any defs c = Ok r /\ dets_plain r = Ok d' /\
+               load_dets apply_any (fst d') (snd d') <> Ok r.
+
+(* D10: sel: {f: '\\*'}  (literal backslash followed by a wildcard) is written as '\*' *)
+Lemma refuted_backslash : rt_differs [([115], DMap [([102], MOne (PStrV [92; 92; 42]))])] (COne [115]).
+Proof. eexists _, _. split; [vm_compute; reflexivity|]. split; [vm_compute; reflexivity|]. vm_compute. discriminate. Qed.
+
+(* modifier aliases: {f|re|i: a, f|re|ignorecase: b} is written as {f|re|ignorecase|all: [a, b]} *)
+Lemma refuted_alias_merge :
+  rt_differs [([115], DMap [([102;124;114;101;124;105], MOne (PStrV [97]));
+                            ([102;124;114;101;124;105;103;110;111;114;101;99;97;115;101], MOne (PStrV [98]))])] (COne [115]).
+Proof. eexists _, _. split; [vm_compute; reflexivity|]. split; [vm_compute; reflexivity|]. vm_compute. discriminate. Qed.
+
+(* the unbound null keyword next to another item is dropped: {'': null, f: x} is written as {f: x} *)
+Lemma refuted_null_keyword :
+  rt_differs [([115], DMap [([], MOne PNull); ([102], MOne (PStrV [120]))])] (COne [115]).
+Proof. eexists _, _. split; [vm_compute; reflexivity|]. split; [vm_compute; reflexivity|]. vm_compute. discriminate. Qed.
+
+(* nested one-value lists: [[a], [b]] is written as [a, b] and read back as one keyword item *)
+Lemma refuted_nested_singles :
+  rt_differs [([115], DList [DList [DVal (PStrV [97])]; DList [DVal (PStrV [98])]])] (COne [115]).
+Proof. eexists _, _. split; [vm_compute; reflexivity|]. split; [vm_compute; reflexivity|]. vm_compute. discriminate. Qed.
+
+(* the premises are inhabited by a detection that uses every shape *)
+Definition sample_defs : list (str * ddef) :=
+  [([115], DMap [([102;124;99;111;110;116;97;105;110;115;124;97;108;108], MMany [PStrV [97;42]; PStrV [92;120]]);
+                 ([103;124;114;101;124;115], MOne (PStrV [92;92;42]));
+                 ([104], MMany []); ([105], MOne PNull)]);
+   ([117], DMap [([], MMany [PInt 1; PFloatInt 2; PBool true])]);
+   ([116], DList [DList [DVal (PStrV [97]); DVal PNull]; DMap [([102], MOne (PFloat [49;46;53]))]; DVal (PStrV [98])])].
+Lemma premises_inhabited :
+  exists r d', load_dets apply_any sample_defs (CMany [[115]; [116]]) = Ok r /\ dom_dets r = true /\
+               dets_plain r = Ok d'.
+Proof. eexists _, _. split; [vm_compute; reflexivity|]. split; vm_compute; reflexivity. Qed.
